@@ -16,7 +16,11 @@ fn build_at(rng: &mut Rng, dir: tempfile::TempDir, g: usize) -> World {
         let name = format!("Data\\Sub{}\\File_{:02}.txt", i % 3, i);
         let there = (i + g) % 6 != 5;
         if there { let len = match i % 5 { 0 => 0, 1 => 10, 2 => 5000, 3 => 70000, _ => rng.range(1, 3000) as usize };
-            let data: Vec<u8> = (0..len).map(|j| ((j / 7 + i + 13 * g) % 251) as u8).collect(); b = b.add_file_data(data, &name); }
+            let data: Vec<u8> = (0..len).map(|j| ((j / 7 + i + 13 * g) % 251) as u8).collect();
+            // every storage form a name can resolve to: default, encrypted + compressed, encrypted with the position-adjusted key
+            // and stored as is, stored plain, bzip2 - the parallel paths read what the sequential read reads
+            b = match i % 8 { 1 => b.add_file_data_with_encryption(data, &name, 0x02, false, 0), 2 => b.add_file_data_with_encryption(data, &name, 0, true, 0), 3 => b.add_file_data_with_options(data, &name, 0, false, 0),
+                5 => b.add_file_data_with_encryption(data, &name, 0x02, true, 0), 6 => b.add_file_data_with_options(data, &name, 0x10, false, 0), _ => b.add_file_data(data, &name) }; }
         names.push(name); present.push(there);
     }
     b.build(&path).expect("build");
@@ -119,11 +123,13 @@ pub fn run(ctx: &mut Ctx) {
         check(ctx, &w, &format!("process_files_parallel len={len}"), &idx, &sp, g3, "u", false, 1);
     } } }
     // extract_matching_parallel: every listed file matching the predicate, each equal to the sequential read
-    let m = pa.extract_matching_parallel(|n| n.contains("Sub1"));
-    match m { Ok(v) => { let want: Vec<usize> = (0..w.names.len()).filter(|i| w.present[*i] && w.names[*i].contains("Sub1")).collect();
+    for pat in ["Sub1", "Sub0", "Sub2", "File_"] {
+    let m = pa.extract_matching_parallel(|n| n.contains(pat));
+    match m { Ok(v) => { let want: Vec<usize> = (0..w.names.len()).filter(|i| w.present[*i] && w.names[*i].contains(pat)).collect();
             let ok = v.len() == want.len() && v.iter().all(|(n, d)| w.names.iter().position(|x| x == n).map(|i| w.seq[i].as_ref() == Some(d)).unwrap_or(false));
-            ctx.out.oracle(ok, "parallel-differs-from-sequential", "extract_matching_parallel Sub1"); }
-        Err(e) => ctx.out.oracle(false, "parallel-call-fails-unexpectedly", &format!("extract_matching_parallel: {e}")) }
+            ctx.out.oracle(ok, "parallel-differs-from-sequential", &format!("extract_matching_parallel {pat}")); }
+        Err(e) => ctx.out.oracle(false, "parallel-call-fails-unexpectedly", &format!("extract_matching_parallel {pat}: {e}")) }
+    }
     // multi-archive helper
     let paths = vec![w.path.clone(), w.path.clone(), w.path.clone()];
     for i in [0usize, 7, 12] { let r = wow_mpq::parallel::extract_from_multiple_archives(&paths, &w.names[i]);
